@@ -242,15 +242,15 @@ class Gen:
             if rng.random() < 0.5:
                 spec["constraints"].append({"id": self.cid("ic"), "kind": "IndicatorTarget", "indicator": i["id"], "value": rng.randint(0, 12)})
             else:
-                lo = rng.randint(0, 6)
+                lo = rng.choice([0, 0, 0, 1, 2, 3, 4, 6, -2])
                 c = {"id": self.cid("ic"), "kind": "IndicatorBounds", "indicator": i["id"]}
                 r = rng.random()
                 if r < 0.4:
                     c["lower"] = lo
                 elif r < 0.8:
-                    c["upper"] = lo + rng.randint(0, 10)
+                    c["upper"] = rng.choice([0, 0, 1, lo + rng.randint(0, 10)])   # tight upper bounds (0: "none allowed")
                 else:
-                    c["lower"], c["upper"] = lo, lo + rng.randint(0, 10)
+                    c["lower"], c["upper"] = lo, lo + rng.choice([0, 0, 1, 3, 10])
                 spec["constraints"].append(c)
         # ---- objectives ----
         okinds = list(p["objectives"])
